@@ -562,6 +562,7 @@ package vuego
 //@   loop 1 invariant C05.balance.loop: len(ctx.stack.stack) == old(len(ctx.stack.stack)) + 1 && (forall bi int :: 0 <= bi && bi < old(len(ctx.stack.stack)) ==> ctx.stack.stack[bi] == old(ctx.stack.stack[bi])) && (vars != nil ==> ctx.stack.stack[len(ctx.stack.stack) - 1] == vars)
 
 //@ func (v *Vue) evalSlot(ctx, node, slotScope) (res, err)
+//@   requires nilable.slotScope: true
 //@   holds ctx.stack
 //@   assert C06.supplied.fields: slotContent.Props == old(slotContent.Props) && slotContent.TemplateNode == old(slotContent.TemplateNode) at "v.evaluateChildren(ctx, slotContent.TemplateNode, 0)"
 //@   assert C06.props.percall: fresh(slotProps) && slotProps != nil at "ctx.stack.Set(scopedVarName, slotProps)"
